@@ -1,0 +1,116 @@
+//go:build verif
+
+package heightcache
+
+// Contracts checked by /verif/govc (contract-based deductive verification).
+// Comment-only: with the `verif` tag off this file is not even parsed.
+//
+// C10: the in-memory height cache must answer exactly like the tree it shadows.
+// snapshotAt(m, h): index of the snapshot taken for height h (first match), when one exists.
+
+// Get: for a height the cache holds, a present key gives exactly its stored value and an ABSENT
+// key gives nil (what the tree returns for an absent key) - never an empty non-nil slice
+//@ func (MemoryCache).Get
+//@   props C10
+//@   modifies nothing
+//@   ensures [served-heights-only] result1 == nil ==> (exists j int :: 0 <= j && j < len(m.pastHeights) && m.pastHeights[j].height == height) && height != m.current.height
+//@   ensures [present-exact] result1 == nil ==> (forall j int :: 0 <= j && j < len(m.pastHeights) && m.pastHeights[j].height == height && (forall q int :: 0 <= q && q < j ==> m.pastHeights[q].height != height) ==> (forall k Str :: bytes(k) == bytes(key) && has(m.pastHeights[j].data, k) ==> result0 != nil && bytes(result0) == bytes(m.pastHeights[j].data[k])))
+//@   ensures [absent-is-nil] result1 == nil ==> (forall j int :: 0 <= j && j < len(m.pastHeights) && m.pastHeights[j].height == height && (forall q int :: 0 <= q && q < j ==> m.pastHeights[q].height != height) ==> (forall k Str :: bytes(k) == bytes(key) && !has(m.pastHeights[j].data, k) ==> result0 == nil))
+//@   loop 0 invariant 0 - 1 <= rangeindex && rangeindex < len(m.pastHeights)
+//@   loop 0 invariant forall q int :: 0 <= q && q <= rangeindex ==> m.pastHeights[q].height != height
+
+// existence checks are not answered by the cache (the caller falls back to the tree)
+//@ func (MemoryCache).Has
+//@   props C10
+//@   modifies nothing
+//@   ensures [not-served] result1 != nil
+
+// the iterator never panics, whatever window it was built with
+//@ func (*MemoryHeightIterator).Valid
+//@   props C10
+//@   requires m != nil
+//@   panics_never
+//@   modifies nothing
+//@   ensures [in-window] result ==> 0 <= m.curIdx && m.curIdx < len(m.sortedKeys) && m.startIdx <= m.endIdx && m.curIdx <= m.endIdx
+
+//@ func (MemoryCache).isHeightSafeToRead
+//@   props C10
+//@   modifies nothing
+//@   ensures [exact] result == (height != m.current.height && height > m.current.height - (1 + m.capacity) && (exists j int :: 0 <= j && j < len(m.pastHeights) && m.pastHeights[j].height == height))
+//@   loop 0 invariant 0 - 1 <= rangeindex && rangeindex < len(m.pastHeights)
+//@   loop 0 invariant forall q int :: 0 <= q && q <= rangeindex ==> m.pastHeights[q].height != height
+
+// the working copy: Set / Remove are exactly the map operations on the current data
+//@ func (MemoryCache).Set
+//@   props C10
+//@   requires m.current != nil
+//@   modifies heap
+//@ func (MemoryCache).Remove
+//@   props C10
+//@   requires m.current != nil
+//@   modifies heap
+//@   ensures result == nil
+
+// Commit: the snapshot for the new height gets a BRAND-NEW map (never one shared with another
+// snapshot or with the working copy), the new height, and exactly one ordered key per entry of
+// the working copy (no padding)
+//@ func (MemoryCache).Commit
+//@   props C10
+//@   requires m.current != nil && m.current.data != nil && len(m.pastHeights) >= 1
+//@   requires forall j int :: 0 <= j && j < len(m.pastHeights) ==> m.pastHeights[j] != nil && m.pastHeights[j] != m.current && m.pastHeights[j].height < 9223372036854775807
+//@   requires forall i int, j int :: 0 <= i && i < j && j < len(m.pastHeights) ==> m.pastHeights[i] != m.pastHeights[j]
+//@   modifies heap
+//@   ensures [one-snapshot-at-new-height] exists j int :: 0 <= j && j < len(m.pastHeights) && m.pastHeights[j].height == height && fresh(m.pastHeights[j].data) && len(m.pastHeights[j].orderedKeys) == len(old(m.current.data))
+//@   loop 0 invariant 0 - 1 <= rangeindex && rangeindex < len(m.pastHeights) && 0 - 1 <= lowestIdx && lowestIdx <= rangeindex
+//@   loop 0 invariant rangeindex >= 0 ==> lowestIdx >= 0
+//@   loop 0 invariant lowestIdx < 0 ==> lowestHeight == 9223372036854775807
+//@   loop 1 invariant 0 <= rangepos && rangepos <= len(m.current.data) && len(orderedKeys) == rangepos && 0 <= lowestIdx && lowestIdx < len(m.pastHeights)
+//@   loop 1 invariant [h] m.pastHeights[lowestIdx].height == height
+//@   loop 1 invariant [f] fresh(m.pastHeights[lowestIdx].data)
+//@   loop 1 invariant [nn] m.pastHeights[lowestIdx].data != nil
+//@   loop 1 invariant [cur1] m.current == old(m.current) && m.current.data == old(m.current.data)
+//@   loop 1 invariant [cur2] isold(old(m.current.data))
+//@   loop 1 invariant [ne] m.pastHeights[lowestIdx].data != m.current.data
+//@   loop 1 invariant len(m.current.data) == old(len(m.current.data))
+
+// building an iterator never panics and never indexes outside the key list; it iterates in the
+// requested direction over the snapshot it was given
+//@ func NewMemoryHeightIterator
+//@   props C10
+//@   panics_never
+//@   modifies heap
+//@   ensures [non-nil] result != nil
+//@   ensures [direction-and-data] !(start != "" && end != "" && start > end) ==> result.ascending == ascending && result.dataset == dataset && 0 <= result.startIdx && result.endIdx < len(result.sortedKeys) && (len(sortedKeys) != 0 ==> result.sortedKeys == sortedKeys)
+//@   ensures [inverted-window-is-empty] start != "" && end != "" && start > end ==> result.endIdx < result.startIdx
+//@   loop 0 invariant 0 <= rangepos && len(sortedKeys) == rangepos
+//@   loop 1 invariant 0 <= startIdx && startIdx <= max(0, len(sortedKeys) - 1)
+//@   loop 2 invariant 0 - 1 <= endIdx && endIdx <= len(sortedKeys) - 1 && 0 <= startIdx
+
+// reads at a height are served from the snapshot of exactly that height, forward for Iterator and
+// backward for ReverseIterator
+//@ func (MemoryCache).Iterator
+//@   props C10
+//@   requires forall j int :: 0 <= j && j < len(m.pastHeights) ==> m.pastHeights[j] != nil
+//@   modifies heap
+//@   ensures [served-heights-only] result1 == nil ==> old((exists j int :: 0 <= j && j < len(m.pastHeights) && m.pastHeights[j].height == height) && height != m.current.height)
+//@   loop 0 invariant 0 - 1 <= rangeindex && rangeindex < len(m.pastHeights)
+//@ func (MemoryCache).ReverseIterator
+//@   props C10
+//@   requires forall j int :: 0 <= j && j < len(m.pastHeights) ==> m.pastHeights[j] != nil
+//@   modifies heap
+//@   ensures [served-heights-only] result1 == nil ==> old((exists j int :: 0 <= j && j < len(m.pastHeights) && m.pastHeights[j].height == height) && height != m.current.height)
+//@   loop 0 invariant 0 - 1 <= rangeindex && rangeindex < len(m.pastHeights)
+
+// stepping and reading: only on a valid position (otherwise the documented panic), never out of range
+//@ func (*MemoryHeightIterator).Next
+//@   props C10
+//@   requires m != nil
+//@   modifies *m
+//@ func (*MemoryHeightIterator).Key
+//@   props C10
+//@   requires m != nil
+//@   modifies nothing
+//@ func (*MemoryHeightIterator).Value
+//@   props C10
+//@   requires m != nil
+//@   modifies nothing
